@@ -16,6 +16,25 @@ Round 4 (relational forms):
  - N2 on a search written over a TABLE of candidates (`_Coll`: integers lo..hi, filtered by divisibility / admissibility, list
    comprehension or masked arange, slices `X[i+1:]`, `range(r1 + 1, ...)`): `for ... else: raise`, `if <table empty>: raise`,
    and `if quotient > bound: raise` on one pre-selected element (wrong unless that element is the largest candidate).
+
+Round 5 (facts derived independently of the statement shape):
+ - N1-result-of-search: every value compute_2d_process_grid hands back is followed (names, unpacked pairs, tuple()/list()) to a call
+   of the search; a pair built otherwise (fallback in a handler of the search's error, early return) is judged by the conditions on
+   the path to it: HOLDS when they bound every dimension the standard layouts distribute along the extent's direction, VIOLATED
+   with the missing dimension quoted otherwise; a handler that raises again on every path holds.  The same for a handler around
+   the call in the set-up functions.  The call of the search is found wherever it stands (try body, assignment, return).
+ - caller + callee as the unit: the communicator query moved into compute_2d_process_grid (second parameter = communicator) and
+   the bounds computed by the set-up function with a direct call of the search are both composed before comparing; the pair is
+   followed from the call to getLayoutHandler through unpacking / indexing / packing (swapped order = VIOLATED).
+ - normal form: a counter kept with another origin (read only as k + c) is replaced by the value it stands for, the odd read
+   out staying visible; copies that only rename a value between the phases of a function are coalesced; optional parameters
+   with a literal default that no caller passes are bound to it; `_cmp` reads `v + c <op> B`.
+ - N2: several `return <same pair>` (early return inside the refinement = break); store checks are path-sensitive (a branch that
+   leaves the iteration does not count); a refinement with no test of the quotient is decided by the one-bit invariant
+   `candidate >= current + 1` on every path to the acceptance (so its quotient is not above the current, admissible one); a
+   generator consumed by the first search and continued by the second is the candidates after the stop.
+ - N2-early-exit: `if <condition on the count>: return <pair of 1 / count>` before the search is judged on its own and taken out.
+ - N4-result-table: a hand-written table of earlier results: writer key == reader key, key holds every argument.
 """
 from __future__ import annotations
 
@@ -149,13 +168,172 @@ def _inline_invariants(fn):
     return done
 
 
-def _normal_form(tree, names):
+class _Rename(ast.NodeTransformer):
+    def __init__(self, old, new):
+        self.old, self.new = old, new
+
+    def visit_Name(self, node):
+        if node.id == self.old:
+            node.id = self.new
+        return node
+
+
+def _coalesce_copies(fn):
+    """a top-level copy `y = x` after which `x` is never used again, of a `y` that is not used before it, only gives the value a
+    new name (the phases of a function written one after the other, each with its own names): `y` is renamed to `x` and the copy
+    dropped"""
+    params = {a.arg for a in fn.args.args + fn.args.kwonlyargs + fn.args.posonlyargs}
+    done = 0
+    changed = True
+    while changed and done < 20:
+        changed = False
+        for k, st in enumerate(fn.body):
+            if not (isinstance(st, ast.Assign) and len(st.targets) == 1 and isinstance(st.targets[0], ast.Name)
+                    and isinstance(st.value, ast.Name) and st.value.id != st.targets[0].id):
+                continue
+            y, x = st.targets[0].id, st.value.id
+            if y in params or x in params:
+                continue
+            after = {n.id for s_ in fn.body[k + 1:] for n in ast.walk(s_) if isinstance(n, ast.Name)}
+            before = {n.id for s_ in fn.body[:k] for n in ast.walk(s_) if isinstance(n, ast.Name)}
+            scoped = any(isinstance(n, (ast.Global, ast.Nonlocal, ast.Lambda, ast.FunctionDef)) for s_ in fn.body for n in ast.walk(s_))
+            if x in after or y in before or scoped:
+                continue
+            del fn.body[k]
+            _Rename(y, x).visit(fn)
+            done += 1
+            changed = True
+            break
+    return done
+
+
+def _shift_counters(fn):
+    """a local that is read only as `k + c` with one integer constant c (a counter kept with another origin: zero-based, say) and
+    written only by `k = <integer>` / `k += <integer>` is replaced by the value it stands for, k' = k + c: every read `k + c`
+    becomes `k'`, every `k = a` becomes `k' = a + c`; `k += a` is unchanged.  A change of variable, valid for every execution."""
+    params = {a.arg for a in fn.args.args + fn.args.kwonlyargs + fn.args.posonlyargs}
+    done = []
+    names = {n.id for n in ast.walk(fn) if isinstance(n, ast.Name) and isinstance(n.ctx, ast.Store)} - params
+    for k in sorted(names):
+        shifts, ok, bare = set(), True, []
+        reads = [n for n in ast.walk(fn) if isinstance(n, ast.Name) and n.id == k and isinstance(n.ctx, ast.Load)]
+        par = {}
+        for n in ast.walk(fn):
+            for ch in ast.iter_child_nodes(n):
+                par[id(ch)] = n
+        for r in reads:
+            p_ = par.get(id(r))
+            if isinstance(p_, ast.BinOp) and isinstance(p_.op, ast.Add) and ((p_.left is r and _int_const(p_.right)) or (p_.right is r and _int_const(p_.left))):
+                shifts.add(p_.right.value if p_.left is r else p_.left.value)
+            elif isinstance(p_, ast.BinOp) and isinstance(p_.op, ast.Sub) and p_.left is r and _int_const(p_.right):
+                shifts.add(-p_.right.value)
+            else:
+                bare.append(r)          # a read with the other origin: written `k' - c` below (the odd one out stays visible)
+        if len(bare) * 2 >= len(reads):
+            ok = False
+        for n in ast.walk(fn):
+            if isinstance(n, ast.Name) and n.id == k and isinstance(n.ctx, (ast.Store, ast.Del)):
+                p_ = par.get(id(n))
+                if isinstance(p_, ast.Assign) and len(p_.targets) == 1 and p_.targets[0] is n and _int_const(p_.value):
+                    continue
+                if isinstance(p_, ast.AugAssign) and p_.target is n and isinstance(p_.op, (ast.Add, ast.Sub)) and _int_const(p_.value):
+                    continue
+                ok = False
+        if not ok or not reads or len(shifts) != 1 or 0 in shifts:
+            continue
+        c = next(iter(shifts))
+
+        class R(ast.NodeTransformer):
+            def visit_BinOp(self, n):
+                if isinstance(n.op, (ast.Add, ast.Sub)) and ((isinstance(n.left, ast.Name) and n.left.id == k and _int_const(n.right))
+                                                             or (isinstance(n.op, ast.Add) and isinstance(n.right, ast.Name) and n.right.id == k and _int_const(n.left))):
+                    return ast.copy_location(ast.Name(id=k, ctx=ast.Load()), n)
+                return self.generic_visit(n)
+
+            def visit_Assign(self, n):
+                if len(n.targets) == 1 and isinstance(n.targets[0], ast.Name) and n.targets[0].id == k and _int_const(n.value):
+                    n.value = ast.copy_location(ast.Constant(value=n.value.value + c), n.value)
+                    return n
+                return self.generic_visit(n)
+
+            def visit_Name(self, n):
+                if any(n is b_ for b_ in bare):
+                    return ast.copy_location(ast.BinOp(left=ast.Name(id=k, ctx=ast.Load()), op=ast.Sub() if c > 0 else ast.Add(),
+                                                       right=ast.Constant(value=abs(c))), n)
+                return n
+        R().visit(fn)
+        # the new variable gets a name that says what it stands for, so that a diagnosis quoting it can be read against the source
+        new = f"{k}_plus_{c}" if c > 0 else f"{k}_minus_{-c}"
+        if new not in {n.id for n in ast.walk(fn) if isinstance(n, ast.Name)}:
+            _Rename(k, new).visit(fn)
+        done.append((k, c))
+    return done
+
+
+class _Fold(ast.NodeTransformer):
+    """x // 1, x * 1, 1 * x, x + 0, 0 + x, x - 0 -> x"""
+    def visit_BinOp(self, n):
+        self.generic_visit(n)
+        if isinstance(n.op, (ast.FloorDiv, ast.Mult)) and _int_const(n.right) and n.right.value == 1:
+            return n.left
+        if isinstance(n.op, ast.Mult) and _int_const(n.left) and n.left.value == 1:
+            return n.right
+        if isinstance(n.op, (ast.Add, ast.Sub)) and _int_const(n.right) and n.right.value == 0:
+            return n.left
+        if isinstance(n.op, ast.Add) and _int_const(n.left) and n.left.value == 0:
+            return n.right
+        return n
+
+
+def _bind_defaults(fn, caller_trees, keep=3):
+    """parameters after the first `keep` that have a literal default and that no call in the given modules passes: the function is
+    analysed with the default bound (the behaviour every caller sees) -> [(name, default text)]"""
+    args = fn.args
+    pos = args.posonlyargs + args.args
+    nd = len(args.defaults)
+    bound = []
+    if args.vararg or args.kwarg or len(pos) <= keep:
+        return bound
+    calls = [n for t in caller_trees for n in ast.walk(t) if isinstance(n, ast.Call) and isinstance(n.func, ast.Name) and n.func.id == fn.name]
+    written = _written(fn)
+    cand = []
+    for i, a in enumerate(pos):
+        d = args.defaults[i - (len(pos) - nd)] if i >= len(pos) - nd else None
+        if i >= keep and isinstance(d, ast.Constant) and a.arg not in written:
+            cand.append((i, a, d))
+    for a, d in zip(args.kwonlyargs, args.kw_defaults):
+        if isinstance(d, ast.Constant) and a.arg not in written:
+            cand.append((None, a, d))
+    for i, a, d in cand:
+        passed = any(any(isinstance(x, ast.Starred) for x in c.args) or any(k.arg is None or k.arg == a.arg for k in c.keywords)
+                     or (i is not None and len(c.args) > i) for c in calls)
+        if passed:
+            continue
+        _Subst(a.arg, d).visit(fn)
+        bound.append((a.arg, src(d)))
+    names = {b_[0] for b_ in bound}
+    if names:
+        # only a trailing run of positional parameters can be dropped without moving the others
+        while args.args and args.args[-1].arg in names and args.defaults:
+            args.args.pop()
+            args.defaults.pop()
+        keepkw = [(a, d) for a, d in zip(args.kwonlyargs, args.kw_defaults) if a.arg not in names]
+        args.kwonlyargs, args.kw_defaults = [a for a, _ in keepkw], [d for _, d in keepkw]
+        _Fold().visit(fn)
+    return bound
+
+
+def _normal_form(tree, names, caller_trees=()):
     """copy of the module with the named functions in local normal form -> (tree copy, {name: FunctionDef})"""
     t2 = copy.deepcopy(tree)
     out = {}
     for st in t2.body:
         if isinstance(st, ast.FunctionDef) and st.name in names:
+            if caller_trees and st.name == FROM_MAX:
+                st._bound_defaults = _bind_defaults(st, [t2] + list(caller_trees), keep=3)
             _split_tuple_assigns(st)
+            _shift_counters(st)
+            _coalesce_copies(st)
             _inline_invariants(st)
             ast.fix_missing_locations(st)
             out[st.name] = st
@@ -212,14 +390,26 @@ def _cmp(test, names, taken=True):
     l, op, r = test.left, type(test.ops[0]), test.comparators[0]
     if op not in _OPS:
         return None
-    if isinstance(l, ast.Name) and l.id in names:
-        nm, other = l.id, r
-    elif isinstance(r, ast.Name) and r.id in names:
-        nm, other, op = r.id, l, _FLIP[op]
+    def shifted(x):
+        """`name + c` / `name - c` / `c + name` -> (name, c)"""
+        if isinstance(x, ast.Name) and x.id in names:
+            return x.id, 0
+        if isinstance(x, ast.BinOp) and isinstance(x.op, (ast.Add, ast.Sub)) and isinstance(x.left, ast.Name) and x.left.id in names \
+                and _int_const(x.right):
+            return x.left.id, x.right.value if isinstance(x.op, ast.Add) else -x.right.value
+        if isinstance(x, ast.BinOp) and isinstance(x.op, ast.Add) and isinstance(x.right, ast.Name) and x.right.id in names and _int_const(x.left):
+            return x.right.id, x.left.value
+        return None
+    sl, sr = shifted(l), shifted(r)
+    if sl is not None:
+        (nm, off), other = sl, r
+    elif sr is not None:
+        (nm, off), other, op = sr, l, _FLIP[op]
     else:
         return None
     kind, adj = _OPS[op]
     base, c = _lin(other)
+    c -= off
     if not taken:
         kind = "gt" if kind == "le" else "le"
     return nm, kind, base, c + adj
@@ -362,8 +552,35 @@ def _own_stores(st):
     return set()
 
 
-def _stored_between(order, i, j, names):
-    return any(_own_stores(order[p]) & names for p in range(max(i + 1, 0), j))
+def _stored_between(order, i, j, names, live=None):
+    """is one of the names stored by a statement at a position in (i, j)?  With `live` (ids of the statements that can run
+    before the target on a path that reaches it) statements of branches that leave the iteration are not counted"""
+    return any(_own_stores(order[p]) & names for p in range(max(i + 1, 0), j) if live is None or id(order[p]) in live)
+
+
+def _live_before(stmts, target):
+    """ids of the statements under `stmts` that can be executed before `target` on a path that reaches it in the same pass over
+    `stmts`: a branch that ends in break/continue/return/raise before the target is not on such a path"""
+    chain = _chain_to(stmts, target)
+    live = set()
+    if chain is None:
+        return None
+
+    def add(st):
+        live.add(id(st))
+        if isinstance(st, ast.If):
+            for b in (st.body, st.orelse):
+                if not _ends_in_jump(b):
+                    for x in b:
+                        add(x)
+        else:
+            for x in _preorder([st])[1:]:
+                live.add(id(x))
+    for blk, k in chain:
+        for sib in blk[:k]:
+            add(sib)
+        live.add(id(blk[k]))
+    return live
 
 
 def _ends_in_jump(b):
@@ -381,6 +598,10 @@ def _chain_to(stmts, target):
                 c = _chain_to(sub, target)
                 if c:
                     return [(stmts, k)] + c
+        for h in getattr(st, "handlers", None) or []:
+            c = _chain_to(h.body, target)
+            if c:
+                return [(stmts, k)] + c
     return None
 
 
@@ -537,6 +758,246 @@ def _gen_bound(fn, tree, e, npts):
     return None
 
 
+# ---------------------------------------------------------------------------------------------------------
+# N1: what compute_2d_process_grid hands back is the result of the search, and the error of the search reaches the caller
+# ---------------------------------------------------------------------------------------------------------
+def _search_calls(fn):
+    return [n for n in ast.walk(fn) if isinstance(n, ast.Call) and isinstance(n.func, ast.Name) and n.func.id == FROM_MAX]
+
+
+def _name_defs(fn, name):
+    """[(value or None, statement)] for every binding of the plain name in fn (None: bound by destructuring / loop / with / handler)"""
+    out = []
+    for n in ast.walk(fn):
+        if isinstance(n, ast.Assign):
+            for t in n.targets:
+                if isinstance(t, ast.Name) and t.id == name:
+                    out.append((n.value, n))
+                elif isinstance(t, (ast.Tuple, ast.List)) and any(isinstance(x, ast.Name) and x.id == name for x in ast.walk(t)):
+                    out.append((None, n))
+        elif isinstance(n, (ast.AugAssign, ast.AnnAssign)) and isinstance(n.target, ast.Name) and n.target.id == name:
+            out.append((n.value if isinstance(n, ast.AnnAssign) else None, n))
+        elif isinstance(n, (ast.For, ast.With)):
+            tg = [n.target] if isinstance(n, ast.For) else [it.optional_vars for it in n.items if it.optional_vars is not None]
+            if any(isinstance(x, ast.Name) and x.id == name for t in tg for x in ast.walk(t)):
+                out.append((None, n))
+        elif isinstance(n, ast.NamedExpr) and n.target.id == name:
+            out.append((None, _stmt_of(n)))
+    return out
+
+
+def _result_sources(fn, calls):
+    """where the values handed back by fn come from: [(kind, expression, statement)] with kind 'search' (a call of the search
+    function), 'foreign' (a value built otherwise) or None (not followed)"""
+    out = []
+
+    def classify(e, st, depth=0):
+        if depth > 6 or e is None:
+            out.append((None, e, st))
+        elif any(e is c for c in calls):
+            out.append(("search", e, st))
+        elif isinstance(e, ast.Call) and isinstance(e.func, ast.Name) and e.func.id in ("tuple", "list") and len(e.args) == 1 and not e.keywords:
+            classify(e.args[0], st, depth + 1)
+        elif isinstance(e, ast.IfExp):
+            classify(e.body, st, depth + 1)
+            classify(e.orelse, st, depth + 1)
+        elif isinstance(e, ast.Name):
+            defs = _name_defs(fn, e.id)
+            if not defs:
+                out.append((None, e, st))
+            for v, dst in defs:
+                if v is None or isinstance(dst, ast.AugAssign):
+                    out.append((None, e, dst))
+                else:
+                    classify(v, dst, depth + 1)
+        elif isinstance(e, (ast.Tuple, ast.List)) and len(e.elts) == 2 and all(isinstance(x, ast.Name) for x in e.elts):
+            # `n1, n2 = <search>` ... `return n1, n2`
+            names = [x.id for x in e.elts]
+            d0, d1 = _name_defs(fn, names[0]), _name_defs(fn, names[1])
+            if len(d0) == 1 and len(d1) == 1 and d0[0][1] is d1[0][1] and d0[0][0] is None and isinstance(d0[0][1], ast.Assign) \
+                    and len(d0[0][1].targets) == 1 and isinstance(d0[0][1].targets[0], (ast.Tuple, ast.List)) \
+                    and [getattr(x, "id", None) for x in d0[0][1].targets[0].elts] == names:
+                classify(d0[0][1].value, d0[0][1], depth + 1)
+            else:
+                out.append(("foreign", e, st))
+        else:
+            out.append(("foreign", e, st))
+    for r in [n for n in ast.walk(fn) if isinstance(n, ast.Return)]:
+        classify(r.value, r)
+    return out
+
+
+def _fn_facts(fn, target):
+    """[(test, taken)] decided on every path from the entry of fn to the statement `target`; None inside a loop / not found"""
+    chain = _chain_to(fn.body, target)
+    if chain is None:
+        return None
+    out = []
+    for lvl, (blk, k) in enumerate(chain):
+        for sib in blk[:k]:
+            if isinstance(sib, ast.If):
+                if _ends_in_jump(sib.body) and not _ends_in_jump(sib.orelse):
+                    out.append((sib.test, False))
+                elif _ends_in_jump(sib.orelse) and not _ends_in_jump(sib.body):
+                    out.append((sib.test, True))
+        if lvl + 1 < len(chain):
+            st = blk[k]
+            nxt = chain[lvl + 1][0]
+            if isinstance(st, ast.If):
+                out.append((st.test, nxt is st.body))
+            elif isinstance(st, (ast.While, ast.For)):
+                return None
+    return out
+
+
+def _always_raises(blk):
+    if not blk:
+        return False
+    last = blk[-1]
+    if isinstance(last, ast.Raise):
+        return True
+    if isinstance(last, ast.If):
+        return _always_raises(last.body) and _always_raises(last.orelse)
+    return False
+
+
+def _catches(handler, raised):
+    """does `except <type>` catch the exceptions named in `raised`?  True / False / None (type not followed)"""
+    import builtins
+    if handler.type is None:
+        return True
+    types = handler.type.elts if isinstance(handler.type, ast.Tuple) else [handler.type]
+    verdicts = []
+    for t in types:
+        h = getattr(builtins, src(t), None) if isinstance(t, ast.Name) else None
+        if not (isinstance(h, type) and issubclass(h, BaseException)):
+            verdicts.append(None)
+            continue
+        for r in raised:
+            rc = getattr(builtins, r, None)
+            verdicts.append(issubclass(rc, h) if isinstance(rc, type) and issubclass(rc, BaseException) else None)
+    if any(v is True for v in verdicts):
+        return True
+    return None if any(v is None for v in verdicts) or not verdicts else False
+
+
+def _pair_verdict(fn, e, st, npts, count, std, in_handler):
+    """a pair handed back that does not come from the search: is it known to respect the bounds of the standard layouts along the
+    path that reaches it?  -> (True / False / None, why)"""
+    where = f"`{src(st).splitlines()[0][:70]}` (line {st.lineno})"
+    ctxt = ("in the handler of the error the search raises when no grid fits, " if in_handler else "") + \
+        f"{where} hands back a grid that is not the result of the search"
+    if {npts, count} & _written(fn):
+        return None, f"{ctxt}; `{npts}` / `{count}` are changed in {fn.name}: the conditions on them are not followed"
+    if not (isinstance(e, (ast.Tuple, ast.List)) and len(e.elts) == 2):
+        return None, f"{ctxt}, and `{src(e)[:60]}` is not a literal pair: cannot decide that it is a valid grid"
+    facts = _fn_facts(fn, st)
+    if facts is None:
+        return None, f"{ctxt}; the conditions under which it is reached are not followed"
+    known, one, unrec = set(), False, []
+    for t, taken in facts:
+        for t2, tk in _facts(t, taken):
+            f = _cmp(t2, {count}, tk)
+            if f and f[1] == "gt":
+                continue                        # a lower bound of the process count: says nothing about the extents
+            if f and f[1] == "le":
+                try:
+                    base = ast.parse(f[2], mode="eval").body
+                except SyntaxError:
+                    base = None
+                if _int_const(base) and base.value + f[3] <= 1:
+                    one = True
+                    continue
+                d = _dims_under(base, npts) if base is not None else None
+                if d and (d[0] == "min" or len(d[1]) == 1) and f[3] <= 0:
+                    known |= d[1]
+                    continue
+            if isinstance(t2, ast.Compare) and len(t2.ops) == 1 and isinstance(t2.ops[0], (ast.Eq, ast.NotEq)) \
+                    and isinstance(t2.ops[0], ast.Eq) == tk:
+                l, r = t2.left, t2.comparators[0]
+                if (isinstance(l, ast.Name) and l.id == count and _int_const(r) and r.value == 1) or \
+                        (isinstance(r, ast.Name) and r.id == count and _int_const(l) and l.value == 1):
+                    one = True
+                    continue
+            unrec.append(t2)
+    if unrec:
+        return None, f"{ctxt}; the condition `{src(unrec[0])[:60]}` on the way to it is not followed"
+    kinds = []
+    for x in e.elts:
+        kinds.append("one" if _int_const(x) and x.value == 1 else "count" if isinstance(x, ast.Name) and x.id == count else None)
+    if None in kinds or not (sorted(kinds) == ["count", "one"] or (one and set(kinds) <= {"count", "one"})):
+        return None, f"{ctxt}; the pair `{src(e)[:60]}` is not followed (extents other than the process count and 1): cannot decide that it " \
+                     "multiplies to the process count and respects the bounds"
+    cond = " and ".join(f"`{src(t)}` is {tk}" for t, tk in facts) or "no condition"
+    for k, kind in enumerate(kinds):
+        dims = {o[k] for o in std}
+        if kind == "count" and not one and not dims <= known:
+            miss = sorted(dims - known)
+            return False, (f"{ctxt}: `{src(e)}`, reached under {cond}. Along this path the extent `{count}` laid on process direction {k} is "
+                           f"known to be <= {npts}[d] only for d in {sorted(known & dims)}, but the standard layouts distribute the dimensions "
+                           f"{sorted(dims)} along that direction: when {npts}[{miss[0]}] < {count} a process is left without points of "
+                           f"dimension {miss[0]}" + (", and the error required when no valid factorisation exists is not raised" if in_handler else ""))
+    return True, (f"{where}: the pair `{src(e)}` multiplies to the process count and, under {cond}, every extent is within the number of "
+                  "points of every dimension distributed along its direction")
+
+
+def result_of_search(chk, fn, search_fn, calls, npts, count, std, kw):
+    rule = "N1-result-of-search"
+    construct = f"every grid handed back by {GRID} is the result of {FROM_MAX}; its error reaches the caller"
+    sources = _result_sources(fn, calls)
+    raised = set()
+    for r in ast.walk(search_fn) if search_fn is not None else []:
+        if isinstance(r, ast.Raise) and r.exc is not None:
+            raised.add(src(r.exc.func) if isinstance(r.exc, ast.Call) else src(r.exc))
+    raised = raised or {"RuntimeError"}
+    handlers = []        # (try statement, handler) around a call of the search that catch its error
+    for t in [n for n in ast.walk(fn) if isinstance(n, ast.Try)]:
+        if not any(any(x is c for c in calls) for st in t.body for x in ast.walk(st)):
+            continue
+        for h in t.handlers:
+            handlers.append((t, h, _catches(h, raised)))
+    in_handler = {}
+    for t, h, catches in handlers:
+        for x in _preorder(h.body):
+            in_handler[id(x)] = (h, catches)
+    nbad = 0
+    for kind, e, st in sources:
+        if kind == "search":
+            continue
+        nbad += 1
+        if st is None:
+            chk.ob(rule, fn, construct, None, "a value handed back is not followed to a statement", **kw)
+            continue
+        h = in_handler.get(id(st))
+        if kind is None:
+            chk.ob(rule, st, construct, None,
+                   f"`{src(st).splitlines()[0][:70]}` (line {st.lineno}): the value handed back is not followed to a call of {FROM_MAX}", **kw)
+            continue
+        if h is not None and h[1] is False:
+            nbad -= 1
+            continue         # in a handler that cannot see the error of the search
+        ok, why = _pair_verdict(fn, e, st, npts, count, std, h is not None and h[1] is True)
+        chk.ob(rule, st, construct, ok, why, **kw)
+    for t, h, catches in handlers:
+        if catches is False:
+            continue
+        inside = [s_ for k_, _e, s_ in sources if k_ != "search" and s_ is not None and in_handler.get(id(s_), (None,))[0] is h]
+        hd = f"`except {src(h.type) if h.type is not None else ''}`".replace(" `", "`") + f" (line {h.lineno})"
+        if _always_raises(h.body) and not inside:
+            chk.ob(rule, h, construct, True, f"{hd} around the search raises an error again on every path: the failure still reaches the caller", **kw)
+        elif inside:
+            continue         # judged above, statement by statement
+        else:
+            nbad += 1
+            chk.ob(rule, h, construct, None,
+                   f"{hd} around the call of {FROM_MAX} " + ("may catch" if catches is None else "catches") + f" the error raised when no grid fits "
+                   f"({sorted(raised)}) and does not raise again on every path: cannot decide what {GRID} hands back then", **kw)
+    if not nbad:
+        chk.ob(rule, _stmt_of(calls[0]) or fn, construct, True,
+               f"the only values {GRID} hands back are results of {FROM_MAX} on the two bounds; no handler around the call keeps its error "
+               "from the caller", **kw)
+
+
 def bounds_vs_layouts(chk, nf, tree=None):
     chk.func(U.PROCGRID, GRID)
     fn = nf[GRID]
@@ -551,13 +1012,17 @@ def bounds_vs_layouts(chk, nf, tree=None):
         return
     fparams = _params(nf[FROM_MAX]) if FROM_MAX in nf else []
     gparams = _params(fn)
-    rets = [n for n in ast.walk(fn) if isinstance(n, ast.Return)]
-    call = rets[0].value if len(rets) == 1 and rets[0] is fn.body[-1] else None
+    # the search is found by its role (the calls of the search function, wherever they stand), the values the function hands back
+    # are followed to those calls; anything else that is handed back is judged by result_of_search below
+    calls = _search_calls(fn)
     b = None
-    if isinstance(call, ast.Call) and isinstance(call.func, ast.Name) and call.func.id == FROM_MAX and len(fparams) == 3 and len(gparams) >= 2:
-        b = _bind(call, fparams)
-        if b is not None and len(b) != 3:
-            b = None
+    if calls and len(fparams) == 3 and len(gparams) >= 2:
+        binds = [_bind(c_, fparams) for c_ in calls]
+        if all(x is not None and len(x) == 3 for x in binds) and len({tuple(ast.dump(x[p_]) for p_ in fparams) for x in binds}) == 1:
+            b = binds[0]
+    call_st = _stmt_of(calls[0]) if calls else None
+    if b is not None and (call_st is None or not any(k_ == "search" for k_, _e, _s in _result_sources(fn, calls))):
+        b = None
     if b is None:
         for k in (0, 1):
             chk.ob("N1-bounds-cover-layouts", fn, f"bound of process direction {k}", None,
@@ -627,13 +1092,29 @@ def bounds_vs_layouts(chk, nf, tree=None):
     changed = [n for n in ast.walk(fn) if (isinstance(n, ast.AugAssign) and isinstance(n.target, ast.Name) and n.target.id == count)
                or (isinstance(n, ast.Assign) and any(isinstance(t, ast.Name) and t.id == count for t in n.targets))]
     okr = isinstance(e, ast.Name) and e.id == count and not changed
+    # the query of the communicator may have moved from the callers into this function: the second parameter is then the
+    # communicator itself and the process count its size (the call sites are compared on the communicator they hand in)
+    comm_param = False
+
+    def size_of_param(x):
+        return isinstance(x, ast.Call) and isinstance(x.func, ast.Attribute) and x.func.attr == "Get_size" and not x.args and not x.keywords \
+            and isinstance(x.func.value, ast.Name) and x.func.value.id == count
+    if not okr and not changed and count not in _written(fn):
+        if size_of_param(e):
+            comm_param, okr = True, True
+        elif isinstance(e, ast.Name) and e.id != count:
+            defs = _name_defs(fn, e.id)
+            if len(defs) == 1 and defs[0][0] is not None and isinstance(defs[0][1], ast.Assign) and size_of_param(defs[0][0]):
+                comm_param, okr = True, True
+                count = e.id
     bad = None
     if isinstance(e, ast.Name) and e.id == count and changed:
         bad = (f"the process count is changed (`{src(changed[0])}`) before the search: the grid multiplies to the changed value, not to "
                "the number of processes of the communicator the caller lays it on")
-    chk.pat("N1-bounds-cover-layouts", rets[0], f"return {FROM_MAX}(bound1, bound2, mpi_size)", okr,
+    chk.pat("N1-bounds-cover-layouts", call_st, f"return {FROM_MAX}(bound1, bound2, mpi_size)", okr,
             "the two bounds and the unchanged process count are handed to the search, each to its own parameter", bad, **kw)
-    return layout_params
+    result_of_search(chk, fn, nf.get(FROM_MAX), calls, npts, count, std, kw)
+    return layout_params, comm_param
 
 
 # ---------------------------------------------------------------------------------------------------------
@@ -869,7 +1350,134 @@ def _same_resolution(chk, f, c, label, sizes, eta_exprs, kw):
            f"`{R}` is not changed between the read of `{R}.{A}` for {GRID} and the {len(reads)} read(s) the grids of the layouts are computed from", **kw)
 
 
-def _site(chk, f, c, label, gparams, hparams, via_helper=False, layout_params=()):
+def _pair_order(f, e, c, depth=0):
+    """how the pair computed by the call `c` arrives in the expression `e`: (0, 1) in order, (1, 0) swapped, None not followed"""
+    if depth > 6 or e is None:
+        return None
+    if e is c or (isinstance(e, ast.Call) and ast.dump(e) == ast.dump(c)):
+        return (0, 1)
+    if isinstance(e, ast.Call) and isinstance(e.func, ast.Name) and e.func.id in ("tuple", "list") and len(e.args) == 1 and not e.keywords:
+        return _pair_order(f, e.args[0], c, depth + 1)
+    if isinstance(e, ast.Name):
+        defs = _name_defs(f, e.id)
+        if len(defs) == 1 and defs[0][0] is not None and isinstance(defs[0][1], ast.Assign):
+            return _pair_order(f, defs[0][0], c, depth + 1)
+        return None
+    if isinstance(e, ast.Subscript) and isinstance(e.slice, ast.Slice) and e.slice.lower is None and e.slice.upper is None \
+            and isinstance(e.slice.step, ast.UnaryOp) and isinstance(e.slice.step.op, ast.USub) and _int_const(e.slice.step.operand) \
+            and e.slice.step.operand.value == 1:
+        o = _pair_order(f, e.value, c, depth + 1)
+        return None if o is None else (o[1], o[0])
+    if isinstance(e, (ast.Tuple, ast.List)) and len(e.elts) == 2:
+        def elem(x, d):
+            if d > 6:
+                return None
+            if isinstance(x, ast.Subscript) and _int_const(x.slice) and x.slice.value in (0, 1, -1, -2):
+                o = _pair_order(f, x.value, c, d + 1)
+                return None if o is None else o[x.slice.value % 2]
+            if isinstance(x, ast.Name):
+                defs = _name_defs(f, x.id)
+                if len(defs) != 1 or not isinstance(defs[0][1], ast.Assign):
+                    return None
+                v, st = defs[0]
+                if v is not None:
+                    return elem(v, d + 1)
+                tg = st.targets[0] if len(st.targets) == 1 else None
+                if isinstance(tg, (ast.Tuple, ast.List)) and len(tg.elts) == 2 and all(isinstance(t, ast.Name) for t in tg.elts):
+                    o = _pair_order(f, st.value, c, d + 1)
+                    names = [t.id for t in tg.elts]
+                    return None if o is None or names[0] == names[1] else o[names.index(x.id)]
+            return None
+        i0, i1 = elem(e.elts[0], depth + 1), elem(e.elts[1], depth + 1)
+        return (i0, i1) if {i0, i1} == {0, 1} else None
+    return None
+
+
+def _sizes_base(f, e):
+    """the object whose entries `X[d]` (literal d) the expression reads, when there is exactly one -> (expression X, copy of e with
+    the reads written `_npts_[d]`); names assigned once are followed"""
+    e2, adj = _resolve(f, e)
+    if e2 is None or adj:
+        return None
+    bases = {}
+
+    class T(ast.NodeTransformer):
+        def visit_Subscript(self, n):
+            if _int_const(n.slice) or (isinstance(n.slice, ast.UnaryOp) and isinstance(n.slice.op, ast.USub) and _int_const(n.slice.operand)):
+                v, a2 = _resolve(f, n.value) if isinstance(n.value, ast.Name) else (n.value, [])
+                if v is not None and not a2 and isinstance(v, (ast.Name, ast.Attribute)):
+                    bases[src(v)] = v
+                    return ast.copy_location(ast.Subscript(value=ast.Name(id="_npts_", ctx=ast.Load()), slice=n.slice, ctx=ast.Load()), n)
+            return self.generic_visit(n)
+
+        def visit_Name(self, n):
+            v, a2 = _resolve(f, n)
+            if v is not None and v is not n and not a2 and not isinstance(v, ast.Name):
+                return self.visit(copy.deepcopy(v))
+            return n
+    orig = e2
+    e3 = T().visit(copy.deepcopy(e2))
+    if len(bases) != 1:
+        return None
+    # the node of the function itself (with its position) rather than the one of the copy
+    want = next(iter(bases))
+    seen, work = set(), [orig]
+    while work:
+        x = work.pop()
+        for n in ast.walk(x):
+            if isinstance(n, (ast.Name, ast.Attribute)) and src(n) == want and isinstance(parent(n), ast.Subscript):
+                return n, e3
+            if isinstance(n, ast.Name) and n.id not in seen:
+                seen.add(n.id)
+                v, a2 = _resolve(f, n)
+                if v is not None and v is not n and not a2:
+                    if isinstance(v, (ast.Name, ast.Attribute)) and src(v) == want:
+                        return v, e3
+                    work.append(v)
+    return next(iter(bases.values())), e3
+
+
+def _direct_site(chk, f, c, label, fparams, hparams, std, comm_param=False):
+    """the set-up function computes the two bounds itself and calls the search: the bounds are compared with the standard layouts
+    here, the rest of the call site is judged as for the two-step form"""
+    kw = dict(file=U.SETUPS, func=getattr(f, "_qual", f.name))
+    b = _bind(c, fparams) if len(fparams) == 3 else None
+    if b is None or len(b) != 3:
+        chk.ob("N1-call-site", c, f"{label}: {FROM_MAX}(bound1, bound2, <layout communicator>.Get_size())", None,
+               "the two bounds and the process count are not all passed", **kw)
+        return
+    base = None
+    for k in (0, 1):
+        dims = {o[k] for o in std}
+        construct = f"{label}: {fparams[k]} = min(npts[d] for d distributed along process direction {k})"
+        got = _sizes_base(f, b[fparams[k]])
+        d = _dims_under(got[1], "_npts_") if got else None
+        if d is None:
+            chk.ob("N1-bounds-cover-layouts", c, construct, None,
+                   f"the bound `{src(b[fparams[k]])[:80]}` is not followed to a minimum over entries of the grid sizes", **kw)
+            continue
+        if base is not None and src(base) != src(got[0]):
+            chk.ob("N1-bounds-cover-layouts", c, construct, None, f"the two bounds read different objects (`{src(base)}` / `{src(got[0])}`)", **kw)
+            continue
+        base = got[0]
+        fun, have = d
+        if fun == "max" and len(have) > 1:
+            chk.ob("N1-bounds-cover-layouts", c, construct, False,
+                   f"the bound of process direction {k} is the LARGEST extent among dimensions {sorted(have)} (`{src(b[fparams[k]])[:80]}`): a process "
+                   "count between the smallest and the largest extent leaves processes without points of the smaller dimension", **kw)
+            continue
+        ok = have == dims
+        chk.ob("N1-bounds-cover-layouts", c, construct, ok,
+               f"the bound of process direction {k} is the smallest extent among the dimensions {sorted(dims)} that the standard layouts "
+               f"distribute along it" if ok else f"the bound handed to `{fparams[k]}` is the minimum over dimensions {sorted(have)} but the "
+               f"standard layouts distribute dimensions {sorted(dims)} along process direction {k}: a process can be left without "
+               "points of an unchecked dimension (or a valid grid refused)", **kw)
+    if base is None:
+        return
+    _site(chk, f, c, label, [], hparams, comm_param=comm_param, bound=({"npts": base, "mpi_size": b[fparams[2]]}, ["npts", "mpi_size"]))
+
+
+def _site(chk, f, c, label, gparams, hparams, via_helper=False, layout_params=(), comm_param=False, bound=None):
     kw = dict(file=U.SETUPS, func=getattr(f, "_qual", f.name))
     construct = f"{label}: {GRID}(constants.npts, <layout communicator>.Get_size()) -> getLayoutHandler"
     good = "the grid sizes and the size of the communicator the layouts are built on; the result is the handler's process grid"
@@ -880,6 +1488,8 @@ def _site(chk, f, c, label, gparams, hparams, via_helper=False, layout_params=()
     if any(isinstance(a, ast.Starred) for a in c.args) or any(k.arg is None for k in c.keywords):
         return undecided("starred arguments: the process count cannot be extracted")
     b = _bind(c, gparams) if gparams else None
+    if bound is not None:
+        b, gparams = bound
     if b is None:
         # more arguments than the function declares / unknown keywords: bind the first two by position or name
         b = {}
@@ -901,7 +1511,13 @@ def _site(chk, f, c, label, gparams, hparams, via_helper=False, layout_params=()
         return undecided(f"layout handlers are built on several communicator/grid pairs {sorted(pairs)}")
     hc, hn = next(iter(pairs))
     size, adj = _resolve(f, b[gparams[1]])
-    cm, arith = _comm_of_size(size) if size is not None else (None, [])
+    if comm_param:
+        # the callee takes the size of the communicator it is given (see bounds_vs_layouts): the argument is the communicator
+        a_ = b[gparams[1]]
+        cm, arith = (src(a_) if isinstance(a_, (ast.Name, ast.Attribute)) else None), []
+        adj = []
+    else:
+        cm, arith = _comm_of_size(size) if size is not None else (None, [])
     adjusted = [src(a) for a in adj] + arith + extra
     if cm is None:
         return undecided(f"the process count `{src(b[gparams[1]])}` is not read as `<communicator>.Get_size()`")
@@ -950,14 +1566,41 @@ def _site(chk, f, c, label, gparams, hparams, via_helper=False, layout_params=()
         return undecided(f"the grid sizes `{src(b[gparams[0]])}` are not recognised as `constants.npts`")
     tgt = parent(c)
     if not (isinstance(tgt, ast.Assign) and len(tgt.targets) == 1 and src(tgt.targets[0]) == hn):
-        return undecided(f"the result of {GRID} is not the value `{hn}` handed to getLayoutHandler as process grid")
+        # the pair may reach the handler through other names: unpacked and packed again, indexed, converted
+        order = _pair_order(f, hb[0]["nprocs"], c)
+        if order == (1, 0):
+            chk.ob("N1-call-site", handlers[0], construct, False,
+                   f"the process grid handed to getLayoutHandler, `{hn}`, holds the two extents computed by {GRID} in swapped order: the "
+                   "extent checked against the dimensions distributed along process direction 0 is laid on direction 1 and the other way "
+                   "round, so a process can be left without points of a distributed dimension", **kw)
+            return
+        if order != (0, 1):
+            return undecided(f"the result of {GRID} is not the value `{hn}` handed to getLayoutHandler as process grid")
+    # the error of the search must reach the caller of the set-up function: a handler around the call that goes on with a grid of
+    # its own builds the layouts on a grid nobody checked
+    for t in [n for n in ast.walk(f) if isinstance(n, ast.Try) and any(x is c for st in n.body for x in ast.walk(st))]:
+        for h in t.handlers:
+            catches = _catches(h, {"RuntimeError"})
+            if catches is False or _always_raises(h.body):
+                continue
+            hd = f"`except {src(h.type)}`" if h.type is not None else "`except`"
+            own = [st for st in _preorder(h.body) if isinstance(st, ast.Assign) and any(src(t_) == hn for t_ in st.targets)]
+            stops = [n for n in ast.walk(h) if isinstance(n, ast.Call) and src(n.func).split(".")[-1] in ("exit", "_exit", "Abort", "abort")]
+            if own and catches and not stops:
+                chk.ob("N1-call-site", own[0], construct, False,
+                       f"{hd} (line {h.lineno}) around {GRID} catches the error raised when no valid process grid exists and goes on with "
+                       f"`{src(own[0])[:70]}`: getLayoutHandler is then built on a grid that was not checked against the numbers of points, "
+                       "instead of the error the property requires", **kw)
+            else:
+                undecided(f"{hd} (line {h.lineno}) around {GRID} may keep the error raised when no valid grid exists from the caller")
+            return
     chk.ob("N1-call-site", c, construct, True, good, **kw)
     if not is_param:
         eta = [x[p] for x in hb for p in hparams[3:4] if p in x]
         _same_resolution(chk, f, c, label, grid_sizes, eta, kw)
 
 
-def call_sites(chk, layout_params=()):
+def call_sites(chk, layout_params=(), comm_param=False):
     smod = chk.mod(U.SETUPS)
     pmod = chk.mod(U.PROCGRID)
     gparams = _params(pmod.func(GRID)) if pmod.has(GRID) else []
@@ -969,6 +1612,12 @@ def call_sites(chk, layout_params=()):
     except AnalysisError:
         pass
     funcs = [st for st in smod.tree.body if isinstance(st, ast.FunctionDef)]
+    fparams = _params(pmod.func(FROM_MAX)) if pmod.has(FROM_MAX) else []
+    try:
+        O = I.load_layout_tables(chk)
+        std = [O[(n, 4)] for n in ("flux_surface", "v_parallel", "poloidal")]
+    except (AnalysisError, KeyError):
+        std = None
 
     def grid_calls(g):
         return [c for c in ast.walk(g) if isinstance(c, ast.Call) and isinstance(c.func, ast.Name) and c.func.id == GRID]
@@ -977,10 +1626,16 @@ def call_sites(chk, layout_params=()):
         calls = grid_calls(f)
         if calls:
             for c in calls:
-                _site(chk, f, c, q, gparams, hparams, layout_params=layout_params)
+                _site(chk, f, c, q, gparams, hparams, layout_params=layout_params, comm_param=comm_param)
             continue
         called = {c.func.id for c in ast.walk(f) if isinstance(c, ast.Call) and isinstance(c.func, ast.Name)}
         helpers = [g for g in funcs if g is not f and g.name in called and grid_calls(g)]
+        direct = [c for c in ast.walk(f) if isinstance(c, ast.Call) and isinstance(c.func, ast.Name) and c.func.id == FROM_MAX]
+        if not helpers and direct and std is not None:
+            # the bounds are computed by the caller, which calls the search itself
+            for c in direct:
+                _direct_site(chk, f, c, q, fparams, hparams, std, comm_param=False)
+            continue
         if not helpers:
             chk.ob("N1-call-site", f, f"{q}: {GRID}(constants.npts, <layout communicator>.Get_size()) -> getLayoutHandler", None,
                    f"no call of {GRID} in {q} or in a function of setups.py it calls", file=U.SETUPS, func=q)
@@ -989,7 +1644,7 @@ def call_sites(chk, layout_params=()):
             chk.func(U.SETUPS, g.name)
             for c in grid_calls(g):
                 # inside a helper the grid sizes arrive as a parameter: only the communicator and the use of the result are decided
-                _site(chk, g, c, q, gparams, hparams, via_helper=True, layout_params=layout_params)
+                _site(chk, g, c, q, gparams, hparams, via_helper=True, layout_params=layout_params, comm_param=comm_param)
 
 
 # ---------------------------------------------------------------------------------------------------------
@@ -1152,7 +1807,89 @@ def _first_loop(fn, P1, P2, M, r1, r2):
     return out
 
 
-def _second_loop(fn, w1, P1, P2, M, r1, r2, ctx=None, env=None):
+def _above_current(fn, w2, a, r1, target):
+    """is `a >= r1 + 1` known to hold when `target` (a statement of the loop w2) is reached?  One-bit abstract walk over the paths
+    of the loop body: the relation is established by `a = r1 + c` (c >= 1), kept by `a += c` (c >= 0), lost by any other store of
+    `a` or `r1`; it holds at the head of the loop when it holds on entry and on every back edge."""
+    def plus(e):
+        if isinstance(e, ast.BinOp) and isinstance(e.op, ast.Add):
+            for x, y in ((e.left, e.right), (e.right, e.left)):
+                if isinstance(x, ast.Name) and x.id == r1 and _int_const(y) and y.value >= 1:
+                    return True
+        return False
+
+    def step(st, state):
+        """state after a simple statement"""
+        if isinstance(st, ast.Assign) and len(st.targets) == 1 and isinstance(st.targets[0], ast.Name):
+            if st.targets[0].id == a:
+                return plus(st.value)
+            if st.targets[0].id == r1:
+                return False
+            return state
+        if isinstance(st, ast.AugAssign) and isinstance(st.target, ast.Name) and st.target.id in (a, r1):
+            up = isinstance(st.op, ast.Add) and _int_const(st.value) and st.value.value >= 0
+            down = isinstance(st.op, ast.Sub) and _int_const(st.value) and st.value.value >= 0
+            return state and (up if st.target.id == a else down)
+        if any(isinstance(n, ast.Name) and isinstance(n.ctx, (ast.Store, ast.Del)) and n.id in (a, r1) for n in ast.walk(st)):
+            return False
+        return state
+
+    def run(head):
+        seen = {"target": None, "back": []}
+
+        def walk(blk, state):
+            """state at the end of the block, None when every path left it"""
+            for st in blk:
+                if st is target:
+                    seen["target"] = state if seen["target"] is None else (seen["target"] and state)
+                if isinstance(st, ast.If):
+                    s1, s2 = walk(st.body, state), walk(st.orelse, state)
+                    if s1 is None and s2 is None:
+                        return None
+                    state = all(x for x in (s1, s2) if x is not None)
+                elif isinstance(st, (ast.Break, ast.Return, ast.Raise)):
+                    return None
+                elif isinstance(st, ast.Continue):
+                    seen["back"].append(state)
+                    return None
+                elif isinstance(st, (ast.While, ast.For, ast.With, ast.Try)):
+                    if any(x is target for x in ast.walk(st)):
+                        seen["target"] = False           # not followed into nested statements
+                    inner = [x for x in _preorder([st])[1:]]
+                    for x in inner:
+                        if isinstance(x, (ast.If, ast.While, ast.For, ast.With, ast.Try, ast.Break, ast.Continue, ast.Return, ast.Raise)):
+                            continue
+                        state = step(x, state) and state
+                    if _own_stores(st) & {a, r1}:
+                        state = False
+                else:
+                    state = step(st, state)
+            return state
+        end = walk(w2.body, head)
+        if end is not None:
+            seen["back"].append(end)
+        return seen
+    # on entry: the last top-level store of `a` before the loop is `a = r1 + c`, and `r1` is not stored after it
+    entry = False
+    if w2 in fn.body:
+        state = False
+        for st in fn.body[:fn.body.index(w2)]:
+            if isinstance(st, (ast.If, ast.While, ast.For, ast.With, ast.Try)):
+                if any(isinstance(n, ast.Name) and isinstance(n.ctx, (ast.Store, ast.Del)) and n.id in (a, r1) for n in ast.walk(st)):
+                    state = False
+            else:
+                state = step(st, state)
+        entry = state
+    if isinstance(w2, ast.For) and _own_stores(w2) & {a, r1}:
+        return False
+    if entry:
+        seen = run(True)
+        if all(seen["back"]):
+            return bool(seen["target"])
+    return bool(run(False)["target"])
+
+
+def _second_loop(fn, w1, P1, P2, M, r1, r2, ctx=None, env=None, first_ok=False):
     """the refinement loop -> dict: w2, step=(verdict, why), cand=(a, b) names of the accepted candidate, mono: bool"""
     out = {"w2": None, "step": (None, "the refinement loop (the top-level `while` after the first search that stores the returned "
                                 "extents) was not found"), "cand": None, "mono": False}
@@ -1201,6 +1938,7 @@ def _second_loop(fn, w1, P1, P2, M, r1, r2, ctx=None, env=None):
         out["step"] = (None, "the acceptance lies inside a nested loop")
         return out
     here = pos[id(first)]
+    live = _live_before(w2.body, first)
     # the second extent of the candidate
     b = None
     e = s2.value
@@ -1210,7 +1948,7 @@ def _second_loop(fn, w1, P1, P2, M, r1, r2, ctx=None, env=None):
         defs = [s for s in order[:here] if isinstance(s, ast.Assign) and len(s.targets) == 1 and isinstance(s.targets[0], ast.Name)
                 and s.targets[0].id == b]
         d = defs[-1] if defs else None
-        if d is None or not any(d in cb for cb in chain_blocks) or _stored_between(order, pos[id(d)], here, {a, b}):
+        if d is None or not any(d in cb for cb in chain_blocks) or _stored_between(order, pos[id(d)], here, {a, b}, live):
             out["step"] = (None, f"the definition of the candidate's second extent `{b}` that reaches the acceptance was not found")
             return out
         e = d.value
@@ -1230,7 +1968,7 @@ def _second_loop(fn, w1, P1, P2, M, r1, r2, ctx=None, env=None):
     for p, t, taken in facts:
         for t2, tk in _facts(t, taken):
             f = _cmp(t2, {a} | ({b} if b else set()), tk)
-            if not f or f[1] != "le" or _stored_between(order, p, here, {f[0]}):
+            if not f or f[1] != "le" or _stored_between(order, p, here, {f[0]}, live):
                 continue
             if f[0] == a and f[2] == want1:
                 got1 = f if got1 is None or f[3] < got1[3] else got1
@@ -1238,10 +1976,10 @@ def _second_loop(fn, w1, P1, P2, M, r1, r2, ctx=None, env=None):
                 got2 = f if got2 is None or f[3] < got2[3] else got2
     if table is not None:
         _i, cv, D2 = table
-        if cv != a or _stored_between(order, -1, here, {a}):
+        if cv != a or _stored_between(order, -1, here, {a}, live):
             out["step"] = (None, f"the accepted first extent `{a}` is not the candidate `{cv}` of the loop over `{D2.text[:60]}`")
             return out
-        if not D2.div and any(((_is_div(t2, a, M) and tk) or (_is_nondiv(t2, a, M) and not tk)) and not _stored_between(order, p, here, {a})
+        if not D2.div and any(((_is_div(t2, a, M) and tk) or (_is_nondiv(t2, a, M) and not tk)) and not _stored_between(order, p, here, {a}, live)
                               for p, t, taken in facts for t2, tk in _facts(t, taken)):
             D2 = D2.but(div=True)
         if not D2.div:
@@ -1261,6 +1999,22 @@ def _second_loop(fn, w1, P1, P2, M, r1, r2, ctx=None, env=None):
                 and not any(_own_stores(x) & {r1, r2} for st in between for x in _preorder([st])):
             got2 = (b, "le", P2, 0)
             out["by_order"] = True
+        # a one-pass iterator (generator) that the first search consumed up to the candidate it stopped at: the second loop goes on
+        # with the candidates after it, which are larger
+        if got2 is None and b and ctx.get("adm") and D2.lazy and D2.asc and isinstance(w2.iter, ast.Name) and isinstance(w1, ast.For) \
+                and isinstance(w1.iter, ast.Name) and w1.iter.id == w2.iter.id and between is not None \
+                and not any(_own_stores(x) & {r1, r2, w2.iter.id} for st in between for x in _preorder([st])) \
+                and sum(1 for n in ast.walk(fn) if isinstance(n, ast.Name) and n.id == w2.iter.id and isinstance(n.ctx, ast.Load)) == 2:
+            got2 = (b, "le", P2, 0)
+            out["by_order"] = True
+    elif got2 is None and b and first_ok and w1 is not None and w1 in fn.body and w2 in fn.body \
+            and not any(_own_stores(x) & {r1, r2} for st in fn.body[fn.body.index(w1) + 1:fn.body.index(w2)] for x in _preorder([st])) \
+            and _above_current(fn, w2, a, r1, first):
+        # no test of the candidate's quotient, but the candidate is above the current first extent (`a >= r1 + 1` on every path to the
+        # acceptance), so its quotient is not above the current second extent, which the first search left within its bound and every
+        # acceptance keeps there
+        got2 = (b, "le", P2, 0)
+        out["by_order"] = True
     for g, nm, bound in ((got1, a, f"min({M}, {P1})"), (got2, b, P2)):
         if g is not None and g[3] > 0:
             out["step"] = (False, f"a candidate is accepted when `{nm} <= {_bound_text(g[2], g[3])}`, beyond its bound `{bound}`: "
@@ -1294,6 +2048,7 @@ class _Coll:
         self.lo, self.hi, self.text, self.div, self.complete, self.asc, self.after, self.root = lo, hi, text, div, complete, asc, after, root
         self.start = start      # (name, c): the integers from `name + c` on (lo is None then)
         self.adm = adm          # (base, k): filtered by `M // n <= base + k`
+        self.lazy = False       # a one-pass iterator (generator expression, iter(...)): a second loop goes on where the first one stopped
 
     def but(self, **kw):
         c = copy.copy(self)
@@ -1339,7 +2094,15 @@ def _coll_of(e, env, M):
                         return _Coll(None, (base, c - 1), src(e), start=(x.id, y.value))
             return None
         if fname in ("list", "tuple", "sorted", "np.array", "np.asarray", "np.sort", "numpy.array", "numpy.asarray", "numpy.sort") and len(e.args) == 1:
-            return _coll_of(e.args[0], env, M)
+            r = _coll_of(e.args[0], env, M)
+            if r is not None and r.lazy:
+                # materialising a one-pass iterator: a table again when the iterator is written in place, not followed when it is a
+                # name (elements may have been consumed already)
+                return None if isinstance(e.args[0], ast.Name) else r.but(lazy=False)
+            return r
+        if fname == "iter" and len(e.args) == 1:
+            r = _coll_of(e.args[0], env, M)
+            return None if r is None or (r.lazy and isinstance(e.args[0], ast.Name)) else r.but(lazy=True, text=src(e))
         return None
     if isinstance(e, (ast.ListComp, ast.GeneratorExp)) and len(e.generators) == 1 and isinstance(e.generators[0].target, ast.Name) \
             and isinstance(e.elt, ast.Name) and e.elt.id == e.generators[0].target.id and not e.generators[0].is_async:
@@ -1350,7 +2113,7 @@ def _coll_of(e, env, M):
         for c in e.generators[0].ifs:
             af = _adm_filter(c, v, M)
             base = base.but(div=True) if _is_div(c, v, M) else base.but(adm=af) if af and base.adm is None else base.but(complete=False)
-        return base.but(text=src(e))
+        return base.but(text=src(e), lazy=base.lazy or isinstance(e, ast.GeneratorExp))
     if isinstance(e, ast.BinOp) and isinstance(e.op, ast.Add) and isinstance(e.left, ast.List) and len(e.left.elts) == 1 \
             and _int_const(e.left.elts[0]) and e.left.elts[0].value == 1:
         r = _coll_of(e.right, env, M)
@@ -1539,6 +2302,16 @@ def _table_search(fn, P1, P2, M, r1, r2):
             out["guard"] = out["fact"] = (None, f"the sequence `{src(L1.iter)[:80]}` the first search runs over is not a recognised table of divisors")
             return out
         idx, c, D = lt
+        if D.lazy:
+            # a one-pass iterator: the loop sees every candidate only when nothing consumed it before
+            uses = [n for n in ast.walk(fn) if isinstance(L1.iter, ast.Name) and isinstance(n, ast.Name) and n.id == L1.iter.id
+                    and isinstance(n.ctx, ast.Load)]
+            iters = [st.iter for st in fn.body if isinstance(st, ast.For)]
+            if not isinstance(L1.iter, ast.Name) or any(not any(u is i for i in iters) for u in uses) \
+                    or any(st.iter in uses for st in fn.body[:fn.body.index(L1)] if isinstance(st, ast.For)):
+                out["guard"] = out["fact"] = (None, f"`{src(L1.iter)[:60]}` is a one-pass iterator that is also used elsewhere than as the sequence of the "
+                                                    "search loops: cannot decide which candidates the first search sees")
+                return out
         brs = [n for n in _preorder(L1.body) if isinstance(n, ast.Break)]
         inner = [n for n in _preorder(L1.body) if isinstance(n, (ast.For, ast.While))]
         order = _preorder(L1.body)
@@ -1730,14 +2503,200 @@ def _table_search(fn, P1, P2, M, r1, r2):
     return out
 
 
+def _early_exits(chk, fn, P, kw):
+    """top-level `if <condition on the process count>: return <pair of 1 / the process count>` before the first loop: judged on
+    their own (the pair must multiply to the process count and respect the bound of its direction under the condition), then
+    taken out, so that the statements that follow are analysed as the search (for every input, which includes the ones that
+    remain)"""
+    P1, P2, M = P
+    rule = "N2-early-exit"
+    if {P1, P2, M} & _written(fn):
+        return
+    env, neg = {}, []
+    k = 0
+    while k < len(fn.body):
+        st = fn.body[k]
+        if isinstance(st, ast.Expr) and isinstance(st.value, ast.Constant):
+            k += 1
+            continue
+        if isinstance(st, ast.Assign) and len(st.targets) == 1 and isinstance(st.targets[0], ast.Name) and \
+                ((_int_const(st.value) and st.value.value == 1) or (isinstance(st.value, ast.Name) and st.value.id == M)):
+            env[st.targets[0].id] = st.value
+            k += 1
+            continue
+        if not (isinstance(st, ast.If) and not st.orelse and len(st.body) == 1 and isinstance(st.body[0], ast.Return)
+                and isinstance(st.body[0].value, (ast.Tuple, ast.List)) and len(st.body[0].value.elts) == 2):
+            return
+        test, val = copy.deepcopy(st.test), copy.deepcopy(st.body[0].value)
+        for nm, v in env.items():
+            test, val = _Subst(nm, v).visit(test), _Subst(nm, v).visit(val)
+        kinds = ["one" if _int_const(x) and x.value == 1 else "count" if isinstance(x, ast.Name) and x.id == M else None for x in val.elts]
+        if None in kinds:
+            return
+        known, one, unrec = set(), False, []
+        for t, taken in [(test, True)] + neg:
+            for t2, tk in _facts(t, taken):
+                f = _cmp(t2, {M}, tk)
+                if f and f[1] == "gt":
+                    continue
+                if f and f[1] == "le":
+                    try:
+                        base = ast.parse(f[2], mode="eval").body
+                    except SyntaxError:
+                        base = None
+                    if _int_const(base) and base.value + f[3] <= 1:
+                        one = True
+                        continue
+                    if f[3] <= 0 and base is not None:
+                        parts = base.args if isinstance(base, ast.Call) and isinstance(base.func, ast.Name) and base.func.id == "min" \
+                            and not base.keywords else [base]
+                        hit = {x.id for x in parts if isinstance(x, ast.Name) and x.id in (P1, P2)}
+                        if hit and all(isinstance(x, ast.Name) for x in parts):
+                            known |= hit
+                            continue
+                if isinstance(t2, ast.Compare) and len(t2.ops) == 1 and isinstance(t2.ops[0], (ast.Eq, ast.NotEq)) \
+                        and isinstance(t2.ops[0], ast.Eq) == tk and {src(t2.left), src(t2.comparators[0])} == {M, "1"}:
+                    one = True
+                    continue
+                unrec.append(t2)
+        if unrec:
+            return
+        ret = st.body[0]
+        ok, why = True, (f"`{src(ret)}` under `{src(st.test)}`: the pair multiplies to `{M}` and the extent `{M}` is within the bound of "
+                         "its direction under that condition")
+        if not one and sorted(kinds) != ["count", "one"]:
+            ok, why = False, (f"`{src(ret)}` under `{src(st.test)}`: the pair does not multiply to the process count `{M}` "
+                              f"(unless `{M}` is 1, which the condition does not say)")
+        for pos_, kind in enumerate(kinds):
+            if ok and kind == "count" and not one and P[pos_] not in known:
+                ok, why = False, (f"`{src(ret)}` under `{src(st.test)}`: the extent `{M}` is laid on process direction {pos_}, whose bound is "
+                                  f"`{P[pos_]}`, but the condition only says `{M}` <= {sorted(known) or 'nothing'}: when `{P[pos_]}` < `{M}` a process "
+                                  "gets no point of a distributed dimension")
+        chk.ob(rule, st, "early exit hands back a valid grid", ok, why, **kw)
+        if not ok:
+            return
+        neg.append((test, False))
+        del fn.body[k]
+
+
+def _result_table(chk, fn, tree, P, kw):
+    """a hand-written table of earlier results (`if key in T: return T[key]` ... `T[key] = (n1, n2)`): the reader and the writer
+    must use the same key, and the key must hold every argument the search depends on; then the early return hands back what the
+    statements below computed for the same arguments, and the table statements are taken out before the search is analysed"""
+    rule = "N4-result-table"
+    tables = set()
+    for st in tree.body:
+        if isinstance(st, (ast.Assign, ast.AnnAssign)) and st.value is not None and \
+                (isinstance(st.value, ast.Dict) or (isinstance(st.value, ast.Call) and src(st.value.func).split(".")[-1] in ("dict", "OrderedDict"))):
+            tg = st.targets if isinstance(st, ast.Assign) else [st.target]
+            tables |= {t.id for t in tg if isinstance(t, ast.Name)}
+    if not tables:
+        return
+
+    def key_of(e):
+        e2, adj = _resolve(fn, e) if isinstance(e, ast.Name) else (e, [])
+        return None if e2 is None or adj else e2
+    reads, writes = [], []          # (statement(s), table, key expression)
+    body = fn.body
+    for k, st in enumerate(body):
+        if isinstance(st, ast.If) and not st.orelse and len(st.body) == 1 and isinstance(st.body[0], ast.Return):
+            t, r = st.test, st.body[0].value
+            if isinstance(t, ast.Compare) and len(t.ops) == 1 and isinstance(t.ops[0], ast.In) and isinstance(t.comparators[0], ast.Name) \
+                    and t.comparators[0].id in tables and isinstance(r, ast.Subscript) and isinstance(r.value, ast.Name) \
+                    and r.value.id == t.comparators[0].id and ast.dump(key_of(r.slice) or r.slice) == ast.dump(key_of(t.left) or t.left):
+                reads.append(([st], r.value.id, key_of(t.left)))
+                continue
+            # hit = T.get(key) ; if hit is not None: return hit
+            if isinstance(r, ast.Name) and k > 0 and isinstance(body[k - 1], ast.Assign) and len(body[k - 1].targets) == 1 \
+                    and isinstance(body[k - 1].targets[0], ast.Name) and body[k - 1].targets[0].id == r.id \
+                    and (same_expr(t, f"{r.id} is not None") or same_expr(t, f"{r.id} != None")):
+                g = body[k - 1].value
+                if isinstance(g, ast.Call) and isinstance(g.func, ast.Attribute) and g.func.attr == "get" and isinstance(g.func.value, ast.Name) \
+                        and g.func.value.id in tables and len(g.args) == 1 and not g.keywords and len(_name_defs(fn, r.id)) == 1:
+                    reads.append(([body[k - 1], st], g.func.value.id, key_of(g.args[0])))
+                    continue
+        if isinstance(st, ast.Assign) and len(st.targets) == 1 and isinstance(st.targets[0], ast.Subscript) \
+                and isinstance(st.targets[0].value, ast.Name) and st.targets[0].value.id in tables:
+            writes.append(([st], st.targets[0].value.id, key_of(st.targets[0].slice), st.value))
+    if not reads and not writes:
+        return
+    T = (reads or writes)[0][1]
+    uses = [n for n in ast.walk(tree) if isinstance(n, ast.Name) and n.id == T]
+    mine = [n for grp in reads + writes for st in grp[0] for n in ast.walk(st) if isinstance(n, ast.Name) and n.id == T]
+    construct = f"table of earlier results `{T}`: same key written and read, holding every argument"
+    if len(reads) != 1 or len(writes) != 1 or reads[0][1] != writes[0][1] or reads[0][2] is None or writes[0][2] is None \
+            or len(uses) != len(mine) + 1:
+        chk.ob(rule, (reads or writes)[0][0][0], construct, None,
+               f"the statements that read and fill `{T}` are not one `if key in {T}: return {T}[key]` and one `{T}[key] = <pair>` "
+               f"({len(reads)} reads, {len(writes)} writes, {len(uses) - 1} uses of the name): not followed", **kw)
+        return
+    rk, wk, wv = reads[0][2], writes[0][2], writes[0][3]
+    rst, wst = reads[0][0][0], writes[0][0][0]
+    if ast.dump(rk) != ast.dump(wk):
+        chk.ob(rule, rst, construct, False,
+               f"the table is filled under the key `{src(wk)}` (line {wst.lineno}) but read under `{src(rk)}` (line {rst.lineno}): a call "
+               "finds the grid stored by a call with other arguments, which was not checked against its own bounds and process count", **kw)
+        return
+    elts = rk.elts if isinstance(rk, ast.Tuple) else [rk]
+    names = set()
+    for x in elts:
+        if isinstance(x, ast.Call) and isinstance(x.func, ast.Name) and x.func.id == "int" and len(x.args) == 1:
+            x = x.args[0]
+        if not isinstance(x, ast.Name):
+            chk.ob(rule, rst, construct, None, f"the key `{src(rk)}` is not a tuple of parameters: not followed", **kw)
+            return
+        names.add(x.id)
+    if set(P) & _written(fn):
+        chk.ob(rule, rst, construct, None, "a parameter is changed in the function: the key is not followed", **kw)
+        return
+    used = {n.id for n in ast.walk(fn) if isinstance(n, ast.Name) and isinstance(n.ctx, ast.Load) and n.id in P}
+    missing = sorted(used - names)
+    if missing:
+        chk.ob(rule, rst, construct, False,
+               f"the table of earlier results is keyed by `{src(rk)}` only, but the search also depends on {missing}: a later call with the "
+               f"same key and another `{missing[0]}` is handed the grid computed for the earlier value, which was not checked against "
+               "its own arguments (a process can be left without points, or the pair does not multiply to the process count)", **kw)
+        return
+    # the stored value: the pair the function returns
+    last = body[-1]
+    okv = isinstance(last, ast.Return) and isinstance(wv, ast.Tuple) and isinstance(last.value, ast.Tuple) and ast.dump(wv) == ast.dump(last.value) \
+        and body.index(wst) == len(body) - 2
+    if not okv and isinstance(last, ast.Return) and isinstance(wv, ast.Name) and isinstance(last.value, ast.Name) and wv.id == last.value.id:
+        d = _name_defs(fn, wv.id)
+        if len(d) == 1 and isinstance(d[0][0], ast.Tuple) and d[0][1] in body and body.index(d[0][1]) < body.index(wst):
+            okv = True
+            last.value = d[0][0]
+            body.remove(d[0][1])
+    if not okv:
+        chk.ob(rule, wst, construct, None,
+               f"`{src(wst)[:70]}` is not followed by the return of the same (immutable) pair: cannot decide what a later call reads", **kw)
+        return
+    chk.ob(rule, rst, construct, True,
+           f"`{T}` is filled and read under the same key `{src(rk)}`, which holds every argument; the value stored is the tuple returned: "
+           "a later call with the same arguments gets the result of the same computation", **kw)
+    for st in reads[0][0] + writes[0][0]:
+        body.remove(st)
+
+
 def search_rules(chk, fn, nf_tree):
     kw = dict(file=U.PROCGRID, func=FROM_MAX)
     P = _params(fn)
+    if len(P) == 3:
+        _result_table(chk, fn, nf_tree, P, kw)
+        _early_exits(chk, fn, P, kw)
     rets = [n for n in ast.walk(fn) if isinstance(n, ast.Return)]
     pair = None
-    if len(P) == 3 and len(rets) == 1 and rets[0] is fn.body[-1] and isinstance(rets[0].value, ast.Tuple) and len(rets[0].value.elts) == 2 \
-            and all(isinstance(x, ast.Name) for x in rets[0].value.elts) and rets[0].value.elts[0].id != rets[0].value.elts[1].id:
-        pair = tuple(x.id for x in rets[0].value.elts)
+    rets.sort(key=lambda r: (r.lineno, r.col_offset))
+    early = []
+    if len(P) == 3 and rets and rets[-1] is fn.body[-1] and isinstance(rets[-1].value, (ast.Tuple, ast.List)) and len(rets[-1].value.elts) == 2 \
+            and all(isinstance(x, ast.Name) for x in rets[-1].value.elts) and rets[-1].value.elts[0].id != rets[-1].value.elts[1].id \
+            and all(isinstance(r.value, (ast.Tuple, ast.List)) and [ast.dump(x) for x in r.value.elts] == [ast.dump(x) for x in rets[-1].value.elts]
+                    for r in rets):
+        # several `return <the same pair>`: the early ones leave the search like a `break` followed by the final return; they are
+        # accepted inside the refinement loop only (checked below)
+        pair = tuple(x.id for x in rets[-1].value.elts)
+        early = rets[:-1]
+        rets = rets[-1:]
     first = second = None
     order_bad = None
     if pair:
@@ -1760,7 +2719,14 @@ def search_rules(chk, fn, nf_tree):
             else:
                 second = _second_loop(fn, first["w1"], P1, P2, M, r1, r2, ctx=first.get("ctx") or {}, env=first.get("env") or {})
         else:
-            second = _second_loop(fn, first["w1"], P1, P2, M, r1, r2)
+            second = _second_loop(fn, first["w1"], P1, P2, M, r1, r2, first_ok=first["fact"][0] is True)
+        stray = [r for r in early if second.get("w2") is None or not any(x is r for x in ast.walk(second["w2"]))]
+        if stray:
+            why = (f"`{src(stray[0])}` (line {stray[0].lineno}) leaves the function outside the refinement loop: the pair handed back there is "
+                   "not followed")
+            second = dict(second, step=(None, why) if second["step"][0] is not False else second["step"])
+            if first["fact"][0] is True:
+                first = dict(first, fact=(None, why))
     chk.pat("N2-factorisation", rets[0] if rets else fn, "return nprocs1, nprocs2", bool(pair) and not order_bad,
             "the pair is returned in (direction 0, direction 1) order", order_bad, nontrivial=False, **kw)
     und = "the function does not end in `return <first extent>, <second extent>` of two local names (or has not three parameters)"
@@ -1854,11 +2820,23 @@ def run(chk):
     chk.in_file(U.PROCGRID)
     mod = chk.mod(U.PROCGRID)
     chk.func(U.PROCGRID, FROM_MAX)
-    nf_tree, nf = _normal_form(mod.tree, (GRID, FROM_MAX))
+    try:
+        callers = [chk.mod(U.SETUPS).tree]
+    except AnalysisError:
+        callers = []
+    nf_tree, nf = _normal_form(mod.tree, (GRID, FROM_MAX), callers)
     # the purity rule needs no recognition of the search: it runs first, so its verdict stands whatever the other rules can decide
     pure_search(chk, mod.tree, mod.func(FROM_MAX))
-    layout_params = bounds_vs_layouts(chk, nf, nf_tree) or set()
-    call_sites(chk, layout_params)
+    if GRID in nf:
+        layout_params, comm_param = bounds_vs_layouts(chk, nf, nf_tree) or (set(), False)
+    else:
+        # the two-step entry point is gone: the call sites are looked at for a direct call of the search with their own bounds
+        layout_params, comm_param = set(), False
+        if any(isinstance(n, ast.Call) and isinstance(n.func, ast.Name) and n.func.id == GRID for t in callers for n in ast.walk(t)):
+            chk.ob("N1-bounds-cover-layouts", mod.tree, f"bounds of the two process directions in {GRID}", None,
+                   f"{GRID} is called by the set-up code but not defined in {U.PROCGRID}: the bounds it hands to the search cannot be read",
+                   file=U.PROCGRID, func="<module>")
+    call_sites(chk, layout_params, comm_param)
     search_rules(chk, nf[FROM_MAX], nf_tree)
     chk.floor("N1-", 4)
     chk.floor("N2-", 4)
